@@ -303,7 +303,7 @@ pub fn run(check: &mut Check) {
         }
         // write side: files produced by the current tree at this page size conform to the pinned layout
         let cfg = Cfg { pagesize: g.pagesize, num_pages: 32, ..Cfg::default() };
-        let or = Oracles { fileck: true, dump_after: true, rets: true, ..Oracles::NONE };
+        let or = Oracles { fileck: true, strict_layout: true, dump_after: true, rets: true, ..Oracles::NONE };
         for h in crate::optx::histories(g.pagesize, tier, false) {
             produced += 1;
             let hist = History { cfg: cfg.clone(), actions: h.clone() };
